@@ -57,6 +57,9 @@ func ValidateCreateVestingAccount(fromAddress string, toAddress string, amount s
 	if amount.IsAnyNegative() {
 		return nil, nil, errors.Wrap(ErrParam, "create vesting account - negative coin amount")
 	}
+	if fromAddress == toAddress {
+		return nil, nil, errors.Wrapf(ErrIdenticalAccountsAddresses, "create vesting account - identical from address (%s) and to address (%s)", fromAddress, toAddress)
+	}
 	if startTime < 0 || endTime < 0 {
 		return nil, nil, errors.Wrapf(ErrParam, "create vesting account - start time and end time cannot be negative (%d, %d)", startTime, endTime)
 	}
